@@ -69,6 +69,7 @@ kf("K5-C03", "P15 comment-before-list-marker", "C03", r"^C03\|not-idempotent\|(.
 kf("K5-C13", "P15 comment-before-list-marker", "C13", r"^C13\|splice-changes-tree\|(.*&)?" + MARK, "#g[/* c1\n * d\n */- foo\n    bar\n]", P15 + " (range formatting of the call or the document)", "splice-changes-tree")
 kf("K8l-C13", "directive in front of a list item after '['", "C13", r"^C13\|splice-changes-tree\|(.*&)?dev=markup:\w+>ContentBlock\[LeftBracket\^(List|Enum|Term)Marker\]:(off_lc|off_reason)[|&]", "#g[// @typstyle off\n- foo\n  - bar\n]", "a line-comment directive directly after '[' protects the list item that follows; the item's text is copied with its source indentation while the block around it is re-indented, so its continuation lines and children change their nesting", "splice-changes-tree")
 kf("K15-C13", "chain in parentheses in front of an intra-word '*'", "C13", r"^C13\|splice-has-syntax-errors\|extra=damage:replace:\*@\d+:", "#a.f(b).g*c)", "a method chain embedded in markup that is followed directly by '*' and a word character: when the chain breaks it is wrapped in parentheses, and after ')' the '*' opens strong emphasis instead of being text", "splice-has-syntax-errors")
+kf("K17-C13", "'.' with a subscript directly after a hashed identifier", "C13", r"^C13\|splice-changes-tree\|extra=damage:delete@\d+:math_\w+/m_hash_subsup", "$#a. _ x ^ y$", "'#a. _ x' in math: the blanks of the attachment are removed, and '#a._x' is a field access", "splice-changes-tree")
 
 # --------------------------------------------------------------------------- K6: list items in a content block whose bracket cannot be broken
 D5 = "a list/enum/term item that starts right after '[' inside a context where the bracket cannot be moved to its own line (strong/emph body, a line of text, a heading): the following lines are indented by one unit relative to the enclosing indentation, not relative to the marker, so with tab width 4 (or deeper nesting) they change their nesting"
